@@ -39,8 +39,21 @@ def mc(ctx):
     ctx.tlc("Wheel", cfg, constants=K, defs=dict(Bound="T <= 6"), name="Wheel-mc", timeout=600)
 
 
+def mc_impl(ctx):
+    """WheelImpl (slots / circles / timers, one action per run-loop command) refines Wheel:
+    every mechanism step is an abstract step with exactly the same fired set."""
+    if ctx.quick:
+        K, bound = dict(N=3, Keys='{"a","b"}', Vals="{1}", MaxD=4), "T <= 5 /\\ nid <= 3"
+    else:
+        K, bound = dict(N=3, Keys='{"a","b"}', Vals="{1,2}", MaxD=4), "T <= 5 /\\ nid <= 3"
+    cfg = core.render_cfg(spec="Spec", constants=K, invariants=["TimersConsistent", "NoOrphans"],
+                          properties=["Refines"], constraints=["Bound"], view="icore")
+    ctx.tlc("WheelImpl", cfg, constants=K, defs=dict(Bound=bound), name="WheelImpl-mc", timeout=1500)
+
+
 def run(ctx):
     mc(ctx)
+    mc_impl(ctx)
     binp = ctx.go_build(PKG, OVERLAY, name="c10drv")
     plans = []
     if ctx.quick:
